@@ -766,3 +766,17 @@ Lemma voi_okb_sound t : voi_okb t = true -> voi_ok t.
 Proof.
   unfold voi_okb, voi_ok, lin_ok, exact_ok. destruct (wl_fun t); [apply ramp_okb_sound | apply ramp_okb_sound | discriminate].
 Qed.
+
+(** a width of 0 (what LINEAR_EXACT degenerate widths are clamped to): a step at c *)
+Lemma exact_ok_width0 wc : ffin wc -> exact_ok 0 wc.
+Proof.
+  intros Fc. unfold exact_ok.
+  destruct (div_between 0 0 fmt_0 fmt_0 lt_0 lt_0 0 2 ffin_zero) as (Fh & Bh & _);
+    [rewrite fR_two; lra | rewrite fR_zero, fR_two; lra |].
+  assert (Eh : fR (0 / 2) = 0) by lra.
+  destruct (sub_between (fR wc) (fR wc) (fR_format _) (fR_format _) (fR_lt_emax _) (fR_lt_emax _)
+              wc (0 / 2) Fc Fh) as (Flo & Blo & _); [rewrite Eh; lra|].
+  destruct (add_between (fR wc) (fR wc) (fR_format _) (fR_format _) (fR_lt_emax _) (fR_lt_emax _)
+              wc (0 / 2) Fc Fh) as (Fhi & Bhi & _); [rewrite Eh; lra|].
+  constructor; try assumption; try exact ffin_zero; rewrite ?Eh, ?fR_zero; lra.
+Qed.
